@@ -571,7 +571,9 @@ class Workspace(_ChannelSummaryMixin, dict):
         rename_measurements = {} if rename_measurements is None else rename_measurements
 
         for modifier_type in prune_modifier_types:
-            if modifier_type not in dict(self.modifiers).values():
+            if modifier_type not in {
+                existing_type for _, existing_type in self.modifiers
+            }:
                 raise exceptions.InvalidWorkspaceOperation(
                     f"{modifier_type} is not one of the modifier types in this workspace."
                 )
